@@ -302,14 +302,36 @@ def twoHandles (s0 : GenSt) (reloaded : Bool) (p : Prof) (lenA lenB : Nat) : Gen
   let s1 := ({ s1 with rng := s0.rng, lines := s0.lines }).drain
   { s0 with rng := s1.rng, lines := s1.lines }
 
+/-- queries that must answer alike on an original and its clone, also through dangling edges into collected
+    vertices (raw slot reads): `inspect` of every present vertex, a `slice` from some, and the internal snapshots -/
+def cloneQueries (s : GenSt) (a b : String) (tag : Nat) : GenSt :=
+  let ks := R.keys s.r s.cap
+  let ls := ks.toArray.flatMap (fun v => #[s!"inspect {a} {v}", s!"inspect {b} {v}"])
+  let sl := (ks.take 2).toArray.flatMap (fun v =>
+    #[s!"slice {a} {v} g{tag} -", s!"observe g{tag}", s!"slice {b} {v} g{tag + 1} -", s!"observe g{tag + 1}", s!"same g{tag} g{tag + 1}"])
+  { s with lines := s.lines ++ ls ++ sl ++ #[s!"snap {a}", s!"snap {b}", s!"samesnap {a} {b}"] }
+
 def genFork (rng : Rng) (len : Nat) : Rng × Array String :=
   let (rng, n, cap) := pickConfig rng
   let s := GenSt.start rng n cap
   let (rng, k) := s.rng.below 3
   let s := { s with rng := rng }
   let p := if k = 0 then profAlloc else if k = 1 then profCycle else profGc
-  let s := (List.range (len / 2)).foldl (fun s _ => s.stepRandom p) s
+  -- where the clone is taken: after a random prefix; after everything was read (often an empty graph whose
+  -- allocator has advanced); after allocator calls only; at once
+  let (rng, scenario) := s.rng.below 6
+  let s := { s with rng := rng }
+  let s :=
+    if scenario = 0 then
+      let s := (List.range (len / 2)).foldl (fun s _ => s.stepRandom p) s
+      let ids := R.keys s.r s.cap
+      ids.foldl (fun (s : GenSt) v => if v ∈ s.r.ids then s.emit (.data v) else s) s
+    else if scenario = 1 then
+      (List.range 3).foldl (fun (s : GenSt) _ => match s.tryOps [.nextId] with | some x => x | none => s) s
+    else if scenario = 2 then s
+    else (List.range (len / 2)).foldl (fun s _ => s.stepRandom p) s
   let s := { s with lines := s.lines.push "clone g0 g1" }
+  let s := cloneQueries s "g0" "g1" 2
   let s := twoHandles s false p (len / 4) (len / 4)
   (s.rng, s.lines)
 
